@@ -115,9 +115,17 @@ Proof. unfold mirrored. rewrite write_our_output_id. reflexivity. Qed.
 
 (** * The run model against [spec_ok] *)
 
+(** [Local.should_use_pty] is the documented rule *)
+Lemma pty_rule p f b : should_use_pty p f b = pty_in_effect p f b.
+Proof. destruct p, f, b; reflexivity. Qed.
+
+Lemma pty_in_effect_using i :
+  pty_in_effect (ri_pty i) (ri_stdin_fileno i) (ri_fallback i) = using_pty i.
+Proof. unfold using_pty. rewrite pty_rule. reflexivity. Qed.
+
 Definition chunk_guard (i : run_in) : bool :=
   cuts_at_initial (ri_enc i) (chunks_of (ri_out i)) &&
-  (ri_pty i || cuts_at_initial (ri_enc i) (chunks_of (ri_err i))).
+  (using_pty i || cuts_at_initial (ri_enc i) (chunks_of (ri_err i))).
 
 Lemma concat_pieces_ok e script :
   cuts_at_initial e (chunks_of script) = true ->
@@ -129,11 +137,11 @@ Qed.
 
 Lemma run_meets_spec_partial i : chunk_guard i = true -> spec_in i (run_model i) = true.
 Proof.
-  unfold chunk_guard, spec_in, run_model, spec_ok. intros G.
+  unfold chunk_guard, spec_in, run_model, spec_ok. rewrite pty_in_effect_using. intros G.
   apply andb_true_iff in G. destruct G as [Go Ge].
   rewrite hide_table. cbn [fst snd].
   rewrite !handle_output_shape. cbn zeta. cbn [ro_stdout ro_stderr ro_out_stream ro_err_stream lo_buf lo_writes app].
-  destruct (ri_pty i) eqn:P.
+  destruct (using_pty i) eqn:P.
   - cbn [lo_buf lo_writes List.concat].
     destruct (stdout_hidden _ _ _), (stderr_hidden _ _ _);
       rewrite ?mirrored_nil, ?mirrored_concat, ?stream_content_nil, ?stream_content_nil1; cbn [List.concat];
@@ -151,7 +159,7 @@ Proof.
 Qed.
 
 Definition witness_in : run_in :=
-  mkIn Utf8 [RChunk [195]; RExit; RChunk [169]] [] HNone false false false false
+  mkIn Utf8 [RChunk [195]; RExit; RChunk [169]] [] HNone false false false true true false
        (mkMirror MNone false) (mkMirror MNone false).
 
 Lemma run_meets_spec_refuted : exists i, spec_in i (run_model i) = false.
@@ -224,7 +232,7 @@ Qed.
 
 Lemma repaired_run_meets_spec i : spec_in i (run_model_inc i) = true.
 Proof.
-  unfold spec_in, run_model_inc, spec_ok.
+  unfold spec_in, run_model_inc, spec_ok. rewrite pty_in_effect_using.
   rewrite hide_table. cbn [fst snd ro_stdout ro_stderr ro_out_stream ro_err_stream].
   rewrite <- !decoder_is_reference. unfold decode_all.
   assert (W : forall h s, List.concat (lo_writes (handle_output_inc (ri_enc i) h DInit s [])) =
@@ -238,7 +246,7 @@ Proof.
                             stream_content m (if h then [] else [dfin (ri_enc i) DInit (stream_bytes s)])).
   { intros m h s. rewrite mirrored_concat, W. destruct h; [|reflexivity].
     rewrite stream_content_nil1, stream_content_nil. reflexivity. }
-  destruct (ri_pty i); cbn [lo_buf lo_writes List.concat];
+  destruct (using_pty i); cbn [lo_buf lo_writes List.concat];
     rewrite ?M, ?inc_capture, ?mirrored_nil; cbn [List.concat app];
     destruct (stdout_hidden _ _ _), (stderr_hidden _ _ _);
     rewrite ?stream_content_nil, ?stream_content_nil1, ?text_eqb_refl; reflexivity.
@@ -318,7 +326,8 @@ Lemma writes_independent_of_mirror i mo me mo' me' :
   run_writes_inc (with_mirrors i mo me) = run_writes_inc (with_mirrors i mo' me').
 Proof.
   unfold run_writes_inc, with_mirrors.
-  cbn [ri_enc ri_out ri_err ri_hide ri_out_given ri_err_given ri_pty ri_async ri_out_mirror ri_err_mirror].
+  unfold using_pty.
+  cbn [ri_enc ri_out ri_err ri_hide ri_out_given ri_err_given ri_pty ri_stdin_fileno ri_fallback ri_async ri_out_mirror ri_err_mirror].
   rewrite !write_our_output_id. reflexivity.
 Qed.
 
@@ -327,7 +336,8 @@ Lemma run_independent_of_mirror_encoding i eo ee eo' ee' :
   run_model_inc (with_mirrors i (mkMirror eo' false) (mkMirror ee' false)).
 Proof.
   unfold run_model_inc, with_mirrors.
-  cbn [ri_enc ri_out ri_err ri_hide ri_out_given ri_err_given ri_pty ri_async ri_out_mirror ri_err_mirror].
+  unfold using_pty.
+  cbn [ri_enc ri_out ri_err ri_hide ri_out_given ri_err_given ri_pty ri_stdin_fileno ri_fallback ri_async ri_out_mirror ri_err_mirror].
   rewrite !mirrored_recording. reflexivity.
 Qed.
 
@@ -351,3 +361,40 @@ Proof.
   unfold stream_content. cbn [m_wrap m_enc map List.concat]. rewrite app_nil_r.
   f_equal. exact (inc_writes_shown (ri_enc i) (ri_out i) DInit []).
 Qed.
+
+(** * Pty asked for vs pty in effect *)
+
+(** the stderr stream is read (captured in full, forwarded unless hidden) exactly when no
+    pty is in effect -- whatever was asked for *)
+Lemma pipes_stderr_captured i :
+  using_pty i = false ->
+  ro_stderr (run_model_inc i) = decode_all (ri_enc i) (stream_bytes (ri_err i)).
+Proof.
+  intros U. unfold run_model_inc. cbn zeta. cbn [ro_stderr]. rewrite U. apply inc_capture_all.
+Qed.
+
+Lemma pty_stderr_empty i :
+  using_pty i = true ->
+  ro_stderr (run_model_inc i) = [] /\ ro_err_submits (run_model_inc i) = [] /\
+  ro_err_stream (run_model_inc i) = [].
+Proof.
+  intros U. unfold run_model_inc. cbn zeta. cbn [ro_stderr ro_err_submits ro_err_stream]. rewrite U.
+  cbn [lo_buf lo_writes lo_submits List.concat]. rewrite mirrored_nil. repeat split; reflexivity.
+Qed.
+
+(** what a run does depends on the pty request, sys.stdin and the fallback option only
+    through what is in effect *)
+Lemma run_depends_on_pty_in_effect i p f b p' f' b' :
+  pty_in_effect p f b = pty_in_effect p' f' b' ->
+  run_model_inc (with_pty_request i p f b) = run_model_inc (with_pty_request i p' f' b').
+Proof.
+  intros H. unfold run_model_inc, with_pty_request, using_pty.
+  cbn [ri_enc ri_out ri_err ri_hide ri_out_given ri_err_given ri_pty ri_stdin_fileno ri_fallback ri_async ri_out_mirror ri_err_mirror].
+  rewrite !pty_rule, H. reflexivity.
+Qed.
+
+(** a pty that was asked for but fell back to pipes (sys.stdin without fileno, fallback allowed)
+    is a plain run: same captured texts, same forwarded texts, same submissions *)
+Lemma fallback_run_is_plain_run i f b :
+  run_model_inc (with_pty_request i true false true) = run_model_inc (with_pty_request i false f b).
+Proof. apply run_depends_on_pty_in_effect. destruct f, b; reflexivity. Qed.
